@@ -55,11 +55,12 @@ def main():
             "add_only": True,
         },
         "engines": [
-            {"name": "gsim", "path": "sim", "serves_properties": [p for p in sorted(CHECKS) if p != "C15"], "kind_free_text": "single-process deterministic simulator: seeded schedules of operations, faults (panics in user callbacks, allocation failure, cancellation of lazy operations) and configurations executed against real griddle + hashbrown, reference model and seam counters as oracles; dev, release and ASan builds"},
-        ] + ([{"name": "gsim-rayon", "path": "sim-rayon", "serves_properties": ["C15"], "kind_free_text": "real rayon 1.12 plumbing over a simulator-owned rayon-core replacement scheduled by shuttle"}] if "C15" in CHECKS else []),
+            {"name": "gsim", "path": "sim", "serves_properties": [p for p in sorted(CHECKS) if p != "C15"], "kind_free_text": "single-process deterministic simulator: seeded schedules of operations, faults (panics in user callbacks and destructors, allocation failure, cancellation of lazy operations, lying size hints, logic-error keys) and configurations executed against real griddle + hashbrown, reference model and seam counters as oracles; dev, release and ASan builds"},
+        ] + ([{"name": "gsim-rayon", "path": "sim-rayon", "serves_properties": ["C15"], "kind_free_text": "real rayon 1.12 plumbing over a simulator-owned rayon-core replacement scheduled by shuttle"}] if "C15" in CHECKS else []) + [
+            {"name": "autotraits-probe", "path": "probes/autotraits", "serves_properties": ["C05"], "kind_free_text": "compile probes (not simulation): the crate must compile, and must be rejected with E0277 under each of five features asserting Send/Sync for griddle's handle types with an Rc inside the hash builder or key - decides the thread-safety clause of C05 (defect D9); run by ./check C05"}],
         "checks": checks,
         "not_applicable": [{"property_id": k, "reason": v} for k, v in sorted(PENDING.items())],
-        "notes": f"Driver: ./check <ID> [--tier quick|thorough] [--seed N] [--replay F]; VERIF_SEED / VERIF_TIER are honoured. /repo head when generated: {head}. Defects found and repaired are listed in known_findings.txt with replay files under replays/pinned-tree/.",
+        "notes": f"Driver: ./check <ID> [--tier quick|thorough] [--seed N] [--replay F]; VERIF_SEED / VERIF_TIER are honoured. /repo head when generated: {head}. Ten defects found and repaired (fix: commits in /repo) and one open known finding (F1, property C12: ./check C12 prints a KNOWN-FINDING line and exits 0) are listed in known_findings.txt, with replay files under replays/pinned-tree/.",
     }
     with open("MANIFEST.json", "w") as f:
         json.dump(manifest, f, indent=1)
